@@ -111,6 +111,8 @@ SPECS = {
     "q0": ("pub", 0, 1, 0), "q0e": ("pub", 0, 2, -8), "q1": ("pub", 1, 3, 4), "q2": ("pub", 2, 5, 2), "rel": ("pkt", {"t": "PUBREL", "id": 5}),
     "q1_2b": ("pub", 1, 6, 130), "q0_3b": ("pub", 0, 7, 16400), "q2_3b": ("pub", 2, 8, 16384), "q1_4b": ("pub", 1, 9, 2097152),
     "stray": ("pkt", {"t": "PUBACK", "id": 40000}),
+    # remaining length exactly 128 / 256 / 16384: the length field starts with a 0x80 byte
+    "r128": ("pubR", 0, 1, 128), "r256": ("pubR", 1, 2, 256), "r16384": ("pubR", 2, 3, 16384), "r384": ("pubR", 1, 4, 384),
 }
 
 
@@ -140,6 +142,12 @@ def resolve(w, names):
             if sp[1] == "SUBACK":
                 p["codes"] = [1, 0x80]
             out.append(p)
+        elif sp[0] == "pubR":
+            _, qos, ident, remaining = sp
+            topic = "in/é/%d" % ident
+            n = remaining - (2 + len(topic.encode("utf-8")) + (2 if qos else 0))
+            out.append({"t": "PUBLISH", "qos": qos, "dup": False, "retain": False, "topic": topic,
+                        "id": ident if qos else None, "payload": (b"~9%05d~" % ident + b"r" * n)[:n]})
         else:
             _, qos, ident, size = sp
             payload = b"~9%05d~" % ident + (b"z" * size if size >= 0 else b"")
@@ -277,7 +285,7 @@ class P03(Plan):
                    "no virtual time passes while the chunks are fed; 20 s pass afterwards"]
 
     def budget(self, tier):
-        return 150 if tier == "quick" else 1800
+        return 150 if tier == "quick" else 2400
 
     def min_deciding(self, tier):
         return 20000
@@ -301,7 +309,7 @@ class P03(Plan):
                     streams.append(combo)
         rng = random.Random(seed)
         rng.shuffle(streams)
-        keep = 40 if tier == "quick" else 400
+        keep = 40 if tier == "quick" else 200
         for st in streams[:keep]:
             yield ChunkCase("all-compositions", cfg, "busy", st, all_cuts)
         for st in (("connack", "puback"), ("connack", "pubrec", "pingresp"), ("connack",), ("puback", "connack", "puback")):
@@ -317,7 +325,8 @@ class P03(Plan):
             yield ChunkCase("random-cuts", cfg, "busy", st, random_cuts(100 if tier == "quick" else 2000, seed))
         yield ChunkCase("1-cuts/connecting", cfg, "connecting", ("connack", "q1", "puback", "pubrec"), k_cuts(1))
         yield ChunkCase("2-cuts/connecting", cfg, "connecting", ("connack", "q1", "puback", "pubrec"), k_cuts(2))
-        long_streams = [("q1_2b", "puback"), ("puback", "q1_2b", "q0_3b", "pubrec"), ("q2_3b", "rel", "suback"), ("q0_3b", "q1_2b", "pingresp")]
+        long_streams = [("q1_2b", "puback"), ("puback", "q1_2b", "q0_3b", "pubrec"), ("q2_3b", "rel", "suback"), ("q0_3b", "q1_2b", "pingresp"),
+                        ("r128", "pingresp", "r256"), ("puback", "r16384", "q0"), ("r384", "r128"), ("pingresp", "r256", "pubrec", "r128")]
         if tier == "thorough":
             long_streams += [("puback", "q1_4b", "pubcomp"), ("q1_4b",)]
         for st in long_streams:
@@ -546,6 +555,9 @@ def arg_table():
     con("clientId of 65536 bytes", "reject", cid=BIG)
     con("clientId of 65535 bytes", "accept", cid=OK65535)
     con("keepalive None", "either", keepalive=None)
+    con("empty will message with topic", "accept", willTopic="w", willMessage="")
+    con("empty will message without topic", "reject", willMessage="")
+    con("empty user name with password", "accept", username="", password="p")
 
     def pub(label, exp, topic="t/a", msg="m", **kw):
         T.append(("publish", (topic, msg), kw, exp, "publish " + label))
@@ -569,6 +581,12 @@ def arg_table():
     for topics, lab in ((5, "int"), (None, "None"), ({"t": 1}, "dict"), (b"t/s", "bytes"), (5.5, "float")):
         sub("topics of type %s" % lab, "reject", topics)
         T.append(("unsubscribe", (topics,), {}, "reject", "unsubscribe topics of type %s" % lab))
+    # not representable on the wire: must be refused as well, and must not leave anything behind
+    sub("list with a 65536-byte topic", "reject", [("t/ok", 0), (BIG, 1)])
+    sub("str topic of 65536 bytes (4-byte characters)", "reject", BIG4, 1)
+    sub("list with a bytes topic", "either", [(b"t/raw", 0)])
+    T.append(("unsubscribe", ([BIG],), {}, "reject", "unsubscribe list with a 65536-byte topic"))
+    T.append(("unsubscribe", ([b"t/raw"],), {}, "either", "unsubscribe list with a bytes topic"))
     T.append(("unsubscribe", ("t/u",), {}, "accept", "unsubscribe str"))
     T.append(("unsubscribe", (["t/u", "t/v"],), {}, "accept", "unsubscribe list"))
     T.append(("unsubscribe", (("t/u", "t/v"),), {}, "reject", "unsubscribe topics of type tuple"))
@@ -583,7 +601,8 @@ STATES20 = {
     "connected-busy": connected(win=4, ka=30) + [("pub", 0, 1), ("pub", 0, 2), ("ack", 0, "PUBREC", "old"), ("sub", 0, "str", 1, 1), ("unsub", 0, "str", 1)],
     "connected-full": connected(win=1) + [("pub", 0, 1), ("pub", 0, 1), ("pub", 0, 0)],
 }
-POST20 = [("pub", 0, 1, False, 3000), ("adv", 45), ("ack", 0, "PUBACK", "old"), ("pub", 0, 2), ("adv", 9), ("lose", 0, "lost"), ("adv", 2)]
+POST20 = [("pub", 0, 1, False, 3000), ("adv", 45), ("ack", 0, "PUBACK", "old"), ("sub", 0, "str", 1, 1), ("unsub", 0, "str", 1),
+          ("ack", 0, "SUBACK", "old"), ("ack", 0, "UNSUBACK", "old"), ("sub", 0, "list", 2, 0), ("pub", 0, 2), ("adv", 9), ("lose", 0, "lost"), ("adv", 2)]
 
 
 def where_allowed(op, prof, state):
